@@ -114,6 +114,9 @@ static struct entry *script_add(enum ek k)
 	return &script[sc_n++];
 }
 
+static bool mode_switch_pending;
+static int mode_switch_to;
+
 static int mock_recv(const void *s, void *buf, const size_t len, const time_t timeout)
 {
 	(void)s;
@@ -125,6 +128,12 @@ static int mock_recv(const void *s, void *buf, const size_t len, const time_t ti
 		return TR_ERROR;
 	struct entry *e = &script[sc_i];
 
+	/* `eodm`: the application changes the interval mode while the response streams in - after the Cache Response has been read,
+	 * before the first byte of the End of Data is delivered */
+	if (mode_switch_pending && sc_i == 1 && e->off == 0) {
+		mode_switch_pending = false;
+		rtr_set_interval_mode(cur_sock, (enum rtr_interval_mode)mode_switch_to);
+	}
 	if (e->k == EK_END) {
 		tracef("W%lld@%lld", (long long)timeout, fake_now);
 		if (cur_sock->state != RTR_ESTABLISHED)
@@ -456,7 +465,7 @@ static void op_name(int which, long long v)
 }
 
 static void op_eod(long long mode, long long sv, long long pv, long long r, long long e, long long y, long long pr,
-		   long long py, long long pe, long long now)
+		   long long py, long long pe, long long now, bool sw, long long mode2)
 {
 	struct rtr_socket sock;
 	struct tr_socket tr;
@@ -481,7 +490,11 @@ static void op_eod(long long mode, long long sv, long long pv, long long r, long
 	fake_now = now;
 	add_cache_response((unsigned int)pv);
 	add_eod((unsigned int)pv, (uint32_t)pr, (uint32_t)py, (uint32_t)pe);
+	mode_switch_pending = sw;
+	mode_switch_to = (int)mode2;
 	int rc = rtr_sync(&sock);
+
+	mode_switch_pending = false;
 
 	printf("%d %u %u %u %u %lld\n", rc, sock.refresh_interval, sock.expire_interval, sock.retry_interval,
 	       sock.version, (long long)sock.last_update);
@@ -767,7 +780,11 @@ int main(void)
 		} else if (n == 11 && !strcmp(w[0], "eod") && I32(w[1], &a[0]) && VER(w[2], &a[1]) && VER(w[3], &a[2]) &&
 			   U32(w[4], &a[3]) && U32(w[5], &a[4]) && U32(w[6], &a[5]) && U32(w[7], &a[6]) && U32(w[8], &a[7]) &&
 			   U32(w[9], &a[8]) && TIME(w[10], &a[9])) {
-			op_eod(a[0], a[1], a[2], a[3], a[4], a[5], a[6], a[7], a[8], a[9]);
+			op_eod(a[0], a[1], a[2], a[3], a[4], a[5], a[6], a[7], a[8], a[9], false, 0);
+		} else if (n == 12 && !strcmp(w[0], "eodm") && I32(w[1], &a[0]) && I32(w[2], &a[10]) && VER(w[3], &a[1]) && VER(w[4], &a[2]) &&
+			   U32(w[5], &a[3]) && U32(w[6], &a[4]) && U32(w[7], &a[5]) && U32(w[8], &a[6]) && U32(w[9], &a[7]) &&
+			   U32(w[10], &a[8]) && TIME(w[11], &a[9])) {
+			op_eod(a[0], a[1], a[2], a[3], a[4], a[5], a[6], a[7], a[8], a[9], true, a[10]);
 		} else if (n == 3 && !strcmp(w[0], "setmode") && I32(w[1], &a[0]) && I32(w[2], &a[1])) {
 			struct rtr_socket sock;
 
